@@ -16,6 +16,7 @@
 
 from __future__ import annotations
 
+from collections.abc import Hashable
 from enum import Enum
 from functools import reduce
 from itertools import cycle
@@ -225,7 +226,10 @@ class _Grid:
 
     @classmethod
     def from_circuit(
-        cls, circuit: cirq.FrozenCircuit, single_qubit_gate_moments_only: bool
+        cls,
+        circuit: cirq.FrozenCircuit,
+        single_qubit_gate_moments_only: bool,
+        tags_to_ignore: frozenset[Hashable] = frozenset(),
     ) -> _Grid:
         gate_types: dict[ops.Qid, dict[int, _CellType]] = {
             q: dict.fromkeys(range(len(circuit)), _CellType.UNKNOWN) for q in circuit.all_qubits()
@@ -254,7 +258,10 @@ class _Grid:
                 else:
                     if _is_clifford_op(op_at_q):
                         gate_types[q][mid] = _CellType.DOOR
-                        mergeable[q][mid] = _is_single_qubit_operation(op_at_q)
+                        # Operations with an ignored tag are never replaced by a merged gate.
+                        mergeable[q][mid] = _is_single_qubit_operation(
+                            op_at_q
+                        ) and tags_to_ignore.isdisjoint(op_at_q.tags)
                     else:
                         gate_types[q][mid] = _CellType.WALL
 
@@ -334,7 +341,8 @@ def add_dynamical_decoupling(
 
     orig_circuit = circuit.freeze()
 
-    grid = _Grid.from_circuit(orig_circuit, single_qubit_gate_moments_only)
+    tags_to_ignore = frozenset(context.tags_to_ignore) if context is not None else frozenset()
+    grid = _Grid.from_circuit(orig_circuit, single_qubit_gate_moments_only, tags_to_ignore)
 
     if context is not None and context.logger is not None:
         context.logger.log("Preprocessed input circuit grid repr:\n%s", str(grid))
